@@ -121,6 +121,10 @@ def pollWith (beh : Beh) (gt endT : Int) (force : Bool) (view : Store) (p : Pid)
 def poll (beh : Beh) (gt endT : Int) (force : Bool) (view : Store) (p : Pid) (f : Front) :
     Outcome :=
   if f.time ≤ gt then
+    if force && decide (endT ≤ f.time) then
+      -- `if force_complete and process_time >= end_time: continue` (already complete)
+      { front := f, contrib := none, quiet := false, evs := [] }
+    else
     -- `self.front[path].pop('timestep', None)` else `calculate_timestep(states)`
     match f.sticky with
     | some n => pollWith beh gt endT force view p f n f.nTs []
